@@ -5,7 +5,8 @@ From Golem Require Export Base.CheckLib Pure.Prelude.
 Import ListNotations.
 Open Scope Z_scope.
 
-(* kind: 0 eqint 1 eqstr 2 ordint 3 ordstr 4 cmeq 5 cmord 6 fromeq 7 fromord 8 sgfrom 9 monfrom 10 monfromop *)
+(* kind: 0 eqint 1 eqstr 2 ordint 3 ordstr 4 cmeq 5 cmord 6 fromeq 7 fromord 8 sgfrom 9 monfrom 10 monfromop
+         11 cmfromeq 12 cmfromord: ContraMap over a From instance whose relation is NOT symmetric (argument order shows) *)
 Record case := mk { kind : N; code : Z; a : list Z; b : list Z; e : Z; obs : list Z }.
 
 Definition b2z (x : bool) : Z := if x then 1 else 0.
@@ -29,9 +30,11 @@ Definition required (c : case) : list Z :=
   | 6%N => [b2z (Z.eqb x (y + code c))]
   | 7%N => [cmp_spec Z.ltb x (y + code c)]
   | 8%N => [bop (code c) x y]
+  | 11%N => [b2z (Z.eqb (proj (code c) x) (proj (code c) y + code c))]
+  | 12%N => [cmp_spec Z.ltb (proj (code c) x) (proj (code c) y + code c)]
   | _ => [e c; bop (code c) x y; bop (code c) y x]
   end.
 
 Definition violations (cs : list case) : list N := idx_where (fun c => negb (lz_eqb (required c) (obs c))) 0%N cs.
 Definition digest (cs : list case) : list (N * N) :=
-  map (fun k => (k, count_where (fun c => N.eqb (kind c) k) cs)) (map N.of_nat (seq 0 11)).
+  map (fun k => (k, count_where (fun c => N.eqb (kind c) k) cs)) (map N.of_nat (seq 0 13)).
